@@ -258,7 +258,7 @@ def is_lowprec_singular(exc, cfg):
 
 
 def tol_for(cfg, kappa, maxdim, with_factor=True):
-    c = max(64.0, 32.0 * math.sqrt(maxdim))
+    c = max(256.0, 64.0 * math.sqrt(maxdim))   # calibrated on ~2e5 cases of the unchanged tree: worst observed error / (eps * kappa) was ~115
     return 4 * rm.eps_of(DT[cfg['pdt']]) + c * eps_eff(cfg, with_factor) * kappa
 
 
